@@ -1,5 +1,6 @@
 # claim(pid, text, technique, design_ref) / NA[pid] = reason  -- read by gen_manifest.py
 XT = "bounded symbolic execution of the real functions (CrossHair + z3), one solver-decided obligation per skeleton"
+E2E = " End to end (decision-tree obligations, concrete per path): "
 
 claim("C08", "Every view class (StreamOffset, FileStream/SectorStream, MdfStream, StreamReversed and the depth-4 nestings the tool builds) "
       "is executed symbolically on an abstract backing file; for every operation history of the stated length with all arguments, window "
@@ -14,12 +15,14 @@ claim("C07", "The real SAT/FAT decoders, get_path, get_file, add_to_sector_links
 claim("C01", "The stream stack of an AKAI sample file is built by the live construct nodes (partition window, file_stream lambda, data_stream window) over an "
       "abstract file and drained through the real AkaiSample.to_generalized / WavSampleAdapter._encode / transcoder; for every partition start, sector order, "
       "file size and marker pair in the bound z3 shows the emitted bytes are exactly words [start,end) of the chain; window expressions and the sample-rate "
-      "path are separate obligations; chains = C07, names/pairs = C05/C06.",
+      "path are separate obligations; chains = C07, names/pairs = C05/C06." + E2E + "whole AKAI images from the independent writer vf/akaiw.py (1..2 partitions, "
+      "solver-chosen sector orders, sizes, directory forms and markers) go through determine_image_type + export and every exported file is compared byte for byte.",
       XT, "DESIGN.md 2/C01")
 
 claim("C03", "MSF arithmetic, from_bin_cue's window construction for 1..4 audio tracks (symbolic MSF, extra INDEX lines, TITLE presence, any bin length), "
       "the whole drain of a track through the real WAV encoder/transcoder over an abstract bin file, and the all-audio/data-track dispatch are each "
-      "executed symbolically and compared with the tiling stated in the property.", XT, "DESIGN.md 2/C03")
+      "executed symbolically and compared with the tiling stated in the property." + E2E + "bin + cue text written independently, exported through the real "
+      "entry points, PCM compared with the bin slices.", XT, "DESIGN.md 2/C03")
 
 claim("C12", "The real transcoder (both iterator classes, block sizing, de-interleave, byte-order steps, pad and interleave) runs on an index-map numpy stand-in; "
       "per configuration (streams x channels x width x byte orders x host order) z3 shows for all stream lengths, block sizes and output bytes that "
@@ -40,7 +43,8 @@ claim("C18", "Character maps (all 256 bytes each way, and names composed per cha
 claim("C14", "The real AKAI table loop runs over an abstract table with a nondeterministic entry sub-parser (symbolic damaged index, symbolic bytes "
       "consumed before the error, symbolic exception type): every other entry is parsed from its own slot and survives in order; the real "
       "FileEntryConstruct is additionally run on a concrete table with one symbolic byte per field (solver walks all 256 values); Volume._realize_files, "
-      "SafeListConstruct and the Roland partial's reference loop are run with symbolically failing sub-parsers.",
+      "SafeListConstruct and the Roland partial's reference loop are run with symbolically failing sub-parsers." + E2E + "in a whole S-770 image (independent writer "
+      "vf/rolandw.py) one byte of one sample's directory or parameter record takes all 256 values; the other samples stay listed and export unchanged.",
       XT + " with nondeterministic sub-parser stubs", "DESIGN.md 2/C14")
 
 claim("C13", "Every loop named in the anchors is run symbolically with a fuel counter whose exhaustion z3 shows unreachable (unwinding assertion): cue-sheet "
@@ -53,19 +57,23 @@ claim("C13", "Every loop named in the anchors is run symbolically with a fuel co
 claim("C15", "The AKAI mono stack (C01), the AKAI stereo pair through the real PipelineTranscoder and the CDDA drain are re-run with the backing file cut at a "
       "symbolic byte position: z3 shows the loop ends, every block is whole frames, every emitted byte is the byte the complete image yields at that PCM "
       "position and lies below the cut (no padding, no foreign bytes), and a sample whose sectors all lie below the cut is complete; partition scan keeps "
-      "the partitions before the first unparsable header.", XT, "DESIGN.md 2/C15")
+      "the partitions before the first unparsable header." + E2E + "whole AKAI and S-770 images cut at solver-chosen positions, through the real entry points: "
+      "every file stored before the cut is exported complete, every other exported file is a whole-frame prefix.", XT, "DESIGN.md 2/C15")
 
 claim("C02", "For each of the 7 loop modes (and an out-of-table mode byte) the real SampleFile.to_generalized is run over RolandFile(symbolic cluster pair) over the "
       "data-area window over an abstract file and drained by the real encoder; z3 shows the PCM is words start..endpoint(mode) of the chain, reversed for "
       "modes 5/6, incl. data ending exactly on a cluster boundary. FAT decoding / get_file(cluster_top) share C07's obligations; the Pointer address "
       "lambdas and index validators of all five entry kinds, the entry adapter's FAT request, loop-point splitting, sample collection and frequency codes "
-      "are separate obligations.", XT + " (NpShim for reversal)", "DESIGN.md 2/C02")
+      "are separate obligations." + E2E + "whole S-770 images from the independent writer vf/rolandw.py (volume/performance/patch/partial/sample trees, "
+      "FAT versions 1/2, permuted chains, cluster_top, all modes and frequency codes) exported through the real entry points and compared byte for byte.",
+      XT + " (NpShim for reversal)", "DESIGN.md 2/C02")
 
 claim("C09", "Byte-level container independence is decided symbolically: a read through the real MdfStream over the independently wrapped image returns the "
       "image's own bytes (histories, incl. the depth-4 nesting and reads across 2048-byte boundaries); the real MdxStream with a stubbed header (symbolic eof) "
       "exposes exactly the bytes behind the 64-byte header for every image length; the real determine_image_type / attempt_parse_cue_sheet choose wrapper and "
       "parser from the detector outcomes only, Roland/AKAI decided on the unwrapped stream; the mdf/mdx signature tests react only to signature bytes "
-      "(one symbolic byte per position).", XT, "DESIGN.md 2/C09")
+      "(one symbolic byte per position)." + E2E + "one AKAI / S-770 / CDDA image, bare and wrapped by independent MODE1/2352, MDF and MDX writers "
+      "with solver-chosen tails: ls text and exported bytes are equal.", XT, "DESIGN.md 2/C09")
 
 claim("C04", "Decided on the repository's own contribution to the file layout: the live Rebuild expressions for block align / byte rate on symbolic rate and "
       "channels; chunk order fmt,[smpl],data from the real encoder for every presence combination; one loop header per region with cue ids and the live "
@@ -110,9 +118,9 @@ claim("C17", "Each live line regex is compiled to a z3 formula and shown to matc
       "canonical meaning; no FILE line / non-ASCII text is rejected and falls through to the binary detectors.",
       ST + " for the line regexes; CrossHair decision-tree enumeration for whole sheets", "DESIGN.md 2/C17")
 
-claim("C16", "PARTIAL (Roland histories out of reach). Cursor independence is C11's inductive step; a second export from the same sample object is shown to yield "
+claim("C16", "Cursor independence is C11's inductive step; a second export from the same sample object is shown to yield "
       "the same bytes (real AKAI stack drained twice, symbolic geometry); the renaming routines are shown order- and repetition-independent on symbolic names "
-      "(symx); lazy properties are realised once; and every history of up to 2 (quick) / 3 (thorough) ls/export operations on ONE image object (AKAI and CDDA "
+      "(symx); lazy properties are realised once; and every history of up to 3 (quick) / 4 (thorough) ls/export operations on ONE image object (AKAI, S-770 and CDDA "
       "images from independent writers) is compared with fresh objects - histories are chosen by the solver's decision tree and are concrete per path, i.e. "
       "bounded exhaustive enumeration, said so in the evidence; an AST query shows every open() but export_wav's is read-only.",
       XT + "; symx for renaming; decision-tree enumeration for operation histories", "DESIGN.md 2/C16")
@@ -122,7 +130,8 @@ claim("C20", "Layouts: the live construct structs (AKAI sample header, loop entr
       "than an independently transcribed format table says (walker validated against the real parser each run). Value adapters (loop entry arithmetic, active "
       "loop filtering, rate default, bool / loop-type / chain predicates) are executed symbolically on raw values. End to end, solver-chosen header values are "
       "serialised by an independent writer, parsed by the real parsers and the real ls text is parsed back (AKAI sample; AKAI program with 1..2 keygroups, 0..4 "
-      "active zones, arbitrary next-keygroup addresses; CDDA track).",
+      "active zones, arbitrary next-keygroup addresses; Roland sample with width-class values in every loop point, all modes / frequency codes / "
+      "FAT versions; CDDA track).",
       "construct-object -> z3 bit-vector layout model; " + XT + "; decision-tree enumeration for the ls round trip", "DESIGN.md 2/C20")
 
 _pending = "check not built yet in this session (work in progress; see DESIGN.md section 2 for the planned obligations)"
